@@ -10,6 +10,11 @@ Correspondence + oracle (DESIGN §4 C11):
   * the Coq model NnlsModel.block3 (extracted, exact rationals) is compared with a python mirror (exactly) and
     with the real block3 (trace of the solver's own verbose output, final active set, x) on the cases whose
     exact decision margins are not tiny;
+  * the Coq models NnlsModel2.pjv_block / pjv_updown / lh_normaleq (extracted) are compared with their python mirrors (exactly)
+    and with the real nnls_normal_block / nnls_normal_block_updown / nnls_lawson_hanson: the sequence of decisions printed by
+    the solvers' own `verbose` output (PJV: pass number, number of infeasibilities, Stuck!/trials, the coefficient picked by
+    Murty's method, size of the free set; LH: every coefficient freed / constrained with the set sizes = the sequence of active
+    sets), the final active set and x, on the cases whose exact decision margins are not tiny;
   * the property's own statement is evaluated on every solver's output: non-negativity, KKT residual within a
     tolerance tied to the solver's tolerance and the conditioning, distance to the optimum.
 """
@@ -30,7 +35,13 @@ ASSUMPTIONS = [
     "descending; else the last); schedule independence of the threaded implementation is C12's subject",
     "NnlsModel.block3 tied to nnls_normal_block3 by this run's comparison of event traces / active sets / x on well-separated cases, "
     "and to the source text by tools/translators/nnls.py (constants, exit test, every transcribed statement; fails closed)",
-    "nnls_normal_block, nnls_normal_block_updown, nnls_lawson_hanson: no Coq model; the property is evaluated on their outputs only",
+    "NnlsModel2.pjv_block / pjv_updown / lh_normaleq tied to nnls_normal_block / nnls_normal_block_updown / nnls_lawson_hanson by this run's "
+    "comparison of the solvers' own verbose traces (sequence of decisions / active sets), final active set and x on well-separated cases, and to "
+    "the source text by tools/translators/nnls.py (exit tests, progress tests, constants, every transcribed statement; fails closed); "
+    "Lawson-Hanson on the least-squares pair (normaleq == 0) is compared with the same model (equal decisions in exact arithmetic: "
+    "A'(y - Ax) = A'y - A'Ax), its own branch of the source is not transcribed",
+    "C11_lh_exit_kkt_tol_partial carries the hypothesis lh_skipped = false (the coefficient freed last is not back in Z[1..] at the exit); "
+    "it is evaluated on every model run and reconstructed from every real trace (counted; 0 expected), not proved",
 ]
 TRUSTED_EXTRA = ["python fractions (exact oracle: optimum certified by exact KKT test; exact condition numbers)",
                  "SuiteSparse (CHOLMOD, SPQR), OpenBLAS as linked by the harness"]
@@ -42,6 +53,9 @@ EPS = Fr(1, 2**52)
 def fr_str(v):
     v = Fr(v)
     return "%d/%d" % (v.numerator, v.denominator)
+def fr_hex(v):
+    v = Fr(v)
+    return "h%s%x/%x" % ("-" if v < 0 else "", abs(v.numerator), v.denominator)
 def fr_parse(s):
     a, _, d = s.partition("/")
     return Fr(int(a), int(d or "1"))
@@ -219,7 +233,53 @@ def impl_trace(lines):
                 ev.append(f(m)); break
     return ev, maxiter
 
+PJV_RE = [(re.compile(r"Stuck! trials: (-?\d+) nH1: (\d+) nH2: (\d+)"), lambda m: "stuck:%s:%s:%s" % m.groups()),
+          (re.compile(r"^\s*H1: (\d+) \("), lambda m: "h1:%s" % m.group(1)),
+          (re.compile(r"^\s*H2: (\d+) \("), lambda m: "h2:%s" % m.group(1)),
+          (re.compile(r"Iteration (\d+) Infeasibles: (\d+)"), lambda m: "iter:%s:%s" % m.groups()),
+          (re.compile(r"Unconstrained solve for (\d+) of \d+"), lambda m: "solve:%s" % m.group(1))]
+LH_RE = [(re.compile(r"Freeing coefficient (\d+) \(active: (\d+), passive: (\d+),"), lambda m: "free:%s:%s:%s" % m.groups()),
+         (re.compile(r"Constraining coefficient (\d+) \(active: (\d+), passive: (\d+),"), lambda m: "bind:%s:%s:%s" % m.groups())]
+def solver_trace(lines, rxs):
+    ev = []
+    for ln in lines:
+        for rx, f in rxs:
+            m = rx.search(ln)
+            if m:
+                ev.append(f(m)); break
+    return ev
+def tup_events(tr):
+    return [":".join(str(v) for v in e) for e in tr]
+def lh_sets_from_trace(n, ev):
+    """P, Z, last_freed reconstructed from the solver's own Freeing/Constraining lines (in the order of the C arrays)"""
+    Z, P, lf = list(range(n)), [], None
+    for e in ev:
+        t = e.split(":"); i = int(t[1])
+        if t[0] == "free":
+            if i in Z: Z.remove(i)
+            P.append(i); lf = i
+        else:
+            if i in P: P.remove(i)
+            Z.append(i)
+    return P, Z, lf
+def lh_tolerance(c):
+    """the tolerance the harness passes to nnls_lawson_hanson, bit for bit: 1e-12 * max|b_k| (1e-12 when b = 0), in binary64"""
+    bmax = max([abs(float(v)) for v in c["b"]] + [0.0])
+    return Fr(1e-12 * (bmax if bmax > 0 else 1.0))
+
 # ------------------------------------------------------------------------------------------------ model
+def pjv_flags():
+    try:
+        txt = open(os.path.join(COQDIR, "theories", "Generated_nnls.v")).read()
+        g = lambda name, rx: re.search(name + r" : \w+ := " + rx, txt).group(1)
+        return dict(block=(g("pjv_block_escape", "(true|false)") == "true", g("pjv_block_exit_both", "(true|false)") == "true"),
+                    updown=(g("pjv_updown_escape", "(true|false)") == "true", g("pjv_updown_exit_both", "(true|false)") == "true"),
+                    max_trials=int(g("pjv_max_trials", r"(\d+)")), iter_factor=int(g("pjv_iter_factor", r"(\d+)")),
+                    tol=Fr(1, 10 ** int(g("pjv_kkt_tol_pow10", r"(\d+)"))))
+    except (OSError, AttributeError):
+        return dict(block=(True, True), updown=(False, True), max_trials=5, iter_factor=3, tol=Fr(1, 10**6))
+PJVF = None
+
 def model_flag():
     try:
         txt = open(os.path.join(COQDIR, "theories", "Generated_nnls.v")).read()
@@ -247,6 +307,15 @@ def run_model(exe, lines, timeout=600):
                              x=[q(s) for s in t[xi + 1:ti]], trace=t[ti + 1:])
         elif t[0] == "S":
             out[t[1]] = None if t[2] == "NONE" else [q(s) for s in t[3:]]
+        elif t[0] == "P":
+            xi, ti = t.index("X"), t.index("T")
+            out[t[1]] = dict(exit=t[2], iters=int(t[3]), F=[int(v) for v in t[4][2:].split(",") if v],
+                             x=[q(s) for s in t[xi + 1:ti]], trace=t[ti + 1:])
+        elif t[0] == "L":
+            xi, ti = t.index("X"), t.index("T")
+            out[t[1]] = dict(exit=t[2], iters=int(t[3]), P=[int(v) for v in t[4][2:].split(",") if v], Z=[int(v) for v in t[5][2:].split(",") if v],
+                             lf=None if t[6] == "LF=-" else int(t[6][3:]), skipped=t[7] == "SK=1",
+                             x=[q(s) for s in t[xi + 1:ti]], trace=t[ti + 1:])
     return out
 
 def mirror_events(mir):
@@ -287,7 +356,12 @@ def exact_side(arg):
     na = max(sum(abs(v) for v in r) for r in A)
     tol3 = Fr(n) * EPS * 10 ** tol_pow
     mir = NE.block3_mirror(A, b, tol3, max_iter, repaired=repaired)
-    return dict(xo=xo, ninv=ninv, na=na, tol3=tol3, mir=mir)
+    pf = PJVF or pjv_flags()
+    pm = {sv: NE.pjv_mirror(A, b, pf["tol"], pf[sv][0], exit_both=pf[sv][1], max_trials=pf["max_trials"], iter_factor=pf["iter_factor"])
+          for sv in ("block", "updown")}
+    lhtol = lh_tolerance(c)
+    lhm = NE.lh_mirror(A, b, lhtol, 0, 20 * n + 20)
+    return dict(xo=xo, ninv=ninv, na=na, tol3=tol3, mir=mir, pjv=pm, lh=lhm, lhtol=lhtol)
 
 def solver_tol(s, c, tol3):
     n = len(c["b"])
@@ -387,6 +461,11 @@ def check_cases(cases, exe, mexe, out, stats, flags, pool, do_model=True):
             mlines.append("%d.cur cur %d %s" % (k, n, data))
             if n <= 4:
                 mlines.append("%d.spec spec %d %s" % (k, n, data))
+        if do_model and n <= 8:
+            hdata = " ".join(fr_hex(v) for r in c["A"] for v in r) + " " + " ".join(fr_hex(v) for v in c["b"])
+            mlines.append("%d.block block %d %s" % (k, n, hdata))
+            mlines.append("%d.updown updown %d %s" % (k, n, hdata))
+            mlines.append("%d.lh lh %d %s 0 %d %s" % (k, n, fr_hex(lh_tolerance(c)), 20 * n + 20, hdata))
     mres = run_model(mexe, mlines)
     for k, (c, ex) in enumerate(zip(cases, exs)):
         n = len(c["b"])
@@ -411,6 +490,37 @@ def check_cases(cases, exe, mexe, out, stats, flags, pool, do_model=True):
             if mres["%d.spec" % k] != ex["xo"]:
                 out.violation("C11:spec-vs-oracle", "Coq nnls_spec (2^n enumeration) and the python optimum disagree (machinery fault)",
                               {"case": case_to_json(c), "spec": [str(v) for v in (mres["%d.spec" % k] or [])], "oracle": [str(v) for v in ex["xo"]]})
+        # --- Coq models of the other three solvers vs their python mirrors (exact)
+        for sv in ("block", "updown"):
+            mr = mres.get("%d.%s" % (k, sv))
+            pm = ex["pjv"][sv]
+            if mr is not None:
+                stats["model2_runs"][sv] = stats["model2_runs"].get(sv, 0) + 1
+                mexit = {"normal": "kkt", "maxiter": "maxiter", "solvefailed": "singular"}.get(mr["exit"], mr["exit"])
+                if mr["x"] != pm["x"] or mr["trace"] != tup_events(pm["trace"]) or mexit != pm["exit"] or mr["F"] != pm["F"] or mr["iters"] != pm["iters"]:
+                    out.violation("C11:model-vs-mirror", "extracted Coq model of %s and its python mirror disagree (machinery fault)" % sv,
+                                  {"case": case_to_json(c), "solver": sv, "model": {"x": [str(v) for v in mr["x"]], "trace": mr["trace"], "exit": mr["exit"], "F": mr["F"]},
+                                   "mirror": {"x": [str(v) for v in pm["x"]], "trace": tup_events(pm["trace"]), "exit": pm["exit"], "F": pm["F"]}})
+            if pm["exit"] != "kkt":
+                stats["model2_abnormal_exits"][sv + ":" + pm["exit"]] = stats["model2_abnormal_exits"].get(sv + ":" + pm["exit"], 0) + 1
+            elif not NE.kkt_exact(c["A"], c["b"], [max(v, Fr(0)) for v in pm["x"]], Fr(1, 10**6) * (1 + max(sum(abs(v) for v in r) for r in c["A"])))[0]:
+                stats["model2_exit_not_kkt"] += 1          # C11_pjv_exit_kkt_tol observed (clipped x, tolerance widened by |A| * KKT_TOL)
+        mr = mres.get("%d.lh" % k)
+        lm = ex["lh"]
+        if mr is not None:
+            stats["model2_runs"]["lh"] = stats["model2_runs"].get("lh", 0) + 1
+            sk = lm["last_freed"] is not None and lm["last_freed"] in lm["Z"][1:]
+            if mr["x"] != lm["x"] or mr["trace"] != tup_events(lm["trace"]) or mr["exit"] != lm["exit"] or mr["P"] != lm["P"] or mr["Z"] != lm["Z"] or \
+               mr["lf"] != lm["last_freed"] or mr["iters"] != lm["iters"] or mr["skipped"] != sk:
+                out.violation("C11:model-vs-mirror", "extracted Coq model of nnls_lawson_hanson and its python mirror disagree (machinery fault)",
+                              {"case": case_to_json(c), "solver": "lh", "model": {"x": [str(v) for v in mr["x"]], "trace": mr["trace"], "exit": mr["exit"], "P": mr["P"], "Z": mr["Z"]},
+                               "mirror": {"x": [str(v) for v in lm["x"]], "trace": tup_events(lm["trace"]), "exit": lm["exit"], "P": lm["P"], "Z": lm["Z"]}})
+        if lm["last_freed"] is not None and lm["last_freed"] in lm["Z"][1:]:
+            stats["lh_skipped_model"] += 1
+        if lm["exit"] not in ("wmax", "allpassive", "tol"):
+            stats["model2_abnormal_exits"]["lh:" + lm["exit"]] = stats["model2_abnormal_exits"].get("lh:" + lm["exit"], 0) + 1
+        elif not NE.kkt_exact(c["A"], c["b"], lm["x"], ex["lhtol"] if lm["exit"] == "tol" else 0)[0]:
+            stats["model2_exit_not_kkt"] += 1              # C11_lh_exit_kkt_tol (full statement) observed
         # --- the model's own exit vs the property (exact): the refuted / proved theorem observed on this case
         mk = NE.kkt_exact(c["A"], c["b"], mir["x"], ex["tol3"])[0]
         if mir["exit"] == "kkt" and not mk:
@@ -462,6 +572,45 @@ def check_cases(cases, exe, mexe, out, stats, flags, pool, do_model=True):
                                   {"case": case_to_json(c), "model_x": [float(v) for v in mir["x"]], "impl_x": x, "margin": float(mir["margin"])})
                 elif cut(mev) == mev and [i for i, v in enumerate(x) if v > 0] != [i for i, v in enumerate(mir["x"]) if v > 0]:
                     stats["active_set_diff"] += 1
+        # --- the other three solvers: model vs code on well-separated cases (the solvers' own verbose traces)
+        for s in ("block", "updown", "lh_ne", "lh_ls"):
+            cid = "%d.%s" % (k, s)
+            if cid not in res or res[cid][0] is None:
+                continue
+            x, lines = res[cid]
+            kappa = float(ex["na"] * ex["ninv"])
+            if s in ("block", "updown"):
+                pm = ex["pjv"][s]
+                ev, mev, mx = solver_trace(lines, PJV_RE), tup_events(pm["trace"]), pm["x"]
+                ok_exit = pm["exit"] == "kkt"
+                act_model, act_impl = pm["F"], [i for i, v in enumerate(x) if v != 0]
+                act_ok = set(act_impl) <= set(act_model)
+            else:
+                lm = ex["lh"]
+                ev, mev, mx = solver_trace(lines, LH_RE), tup_events(lm["trace"]), lm["x"]
+                ok_exit = lm["exit"] in ("wmax", "allpassive", "tol")
+                P_i, Z_i, lf_i = lh_sets_from_trace(n, ev)
+                if lf_i is not None and lf_i in Z_i[1:]:
+                    stats["lh_skipped_impl"] += 1
+                act_model, act_impl = sorted(lm["P"]), sorted(i for i, v in enumerate(x) if v != 0)
+                act_ok = act_model == act_impl and sorted(P_i) == act_model
+                mg = lm["margin"]
+            mg = pm["margin"] if s in ("block", "updown") else lm["margin"]
+            if mg is None or mg < Fr(1, 10**6) or kappa >= 1e8 or not ok_exit:
+                continue
+            stats["traces2_validated"][s] = stats["traces2_validated"].get(s, 0) + 1
+            stats["traces_validated"] += 1
+            if ev != mev:
+                out.violation("C11:%s:trace-model-vs-code" % s, "model and real %s take different decisions on a well-separated system" % s,
+                              {"case": case_to_json(c), "solver": s, "model_trace": mev, "impl_trace": ev, "margin": float(mg)})
+                continue
+            tolx = Fr(1, 10**7) * max([abs(v) for v in mx] + [Fr(1)])
+            if any(abs(Fr(a) - m) > tolx for a, m in zip(x, mx)):
+                out.violation("C11:%s:x-model-vs-code" % s, "model and real %s follow the same decisions but return different vectors" % s,
+                              {"case": case_to_json(c), "solver": s, "model_x": [float(v) for v in mx], "impl_x": x, "margin": float(mg)})
+            elif not act_ok:
+                out.violation("C11:%s:active-set-model-vs-code" % s, "model and real %s follow the same decisions but end with different active sets" % s,
+                              {"case": case_to_json(c), "solver": s, "model_free_set": act_model, "impl_support": act_impl, "margin": float(mg)})
         if len(stats["samples"]) < 3 and n <= 4:
             stats["samples"].append({"case": case_to_json(c), "optimum": [str(v) for v in ex["xo"]],
                                      "block3": res.get("%d.block3" % k, (None, []))[0], "model_trace": mirror_events(mir)})
@@ -525,7 +674,10 @@ def run(info, out):
     flags = model_flag()
     stats = {"evaluations": 0, "distinct": set(), "hist": {}, "model_runs": 0, "spec_runs": 0, "solver_runs": {}, "fails": {}, "hangs": [],
              "traces_validated": 0, "samples": [], "model_exit_not_kkt": 0, "model_abnormal_exits": {}, "block3_maxiter_exits": 0,
-             "active_set_diff": 0, "sparse_runs": 0, "restarts": []}
+             "active_set_diff": 0, "sparse_runs": 0, "restarts": [], "model2_runs": {}, "model2_abnormal_exits": {}, "model2_exit_not_kkt": 0,
+             "lh_skipped_model": 0, "lh_skipped_impl": 0, "traces2_validated": {}}
+    global PJVF
+    PJVF = pjv_flags()
     pool = Pool(min(NCPU, 16))
     try:
         if info.get("replay"):
@@ -543,6 +695,10 @@ def run(info, out):
                         if s == "block3":
                             it = impl_trace(lines)[0]
                             print("replay: block3 trace (%d events, last 14)" % len(it), it[-14:], "| model trace", mirror_events(ex["mir"])[-14:], "| model exit", ex["mir"]["exit"])
+                        elif s in ("block", "updown"):
+                            print("replay: %s trace" % s, solver_trace(lines, PJV_RE)[-16:], "| model trace", tup_events(ex["pjv"][s]["trace"])[-16:], "| model exit", ex["pjv"][s]["exit"], "F", ex["pjv"][s]["F"])
+                        else:
+                            print("replay: %s trace" % s, solver_trace(lines, LH_RE)[-16:], "| model trace", tup_events(ex["lh"]["trace"])[-16:], "| model exit", ex["lh"]["exit"], "P", ex["lh"]["P"])
             elif j.get("sparse"):
                 sp = j["sparse"]
                 c = {"kind": "sparse", "n": sp["n"], "T": {(i, jj): v for i, jj, v in sp["T"]}, "b": sp["b"]}
@@ -588,6 +744,15 @@ def run(info, out):
         "block3_maxiter_exits_observed": stats["block3_maxiter_exits"],
         "block3_final_active_set_differs_by_rounding": stats["active_set_diff"],
         "model_is_repaired_algorithm": flags[0],
+        "coq_model_runs_other_solvers": stats["model2_runs"],
+        "traces_validated_against_impl_by_solver": stats["traces2_validated"],
+        "pjv_lh_model_converged_exits_not_kkt": stats["model2_exit_not_kkt"],
+        "pjv_lh_model_abnormal_exits": stats["model2_abnormal_exits"],
+        "lh_skipped_true_model_runs": stats["lh_skipped_model"],
+        "lh_real_traces_ending_with_last_freed_back_in_Z": stats["lh_skipped_impl"],
+        "lh_real_traces_note": "real Lawson-Hanson runs whose own trace ends with the coefficient freed last constrained again: the anti-cycling exit "
+                               "`alpha == 0` taken after rounding on ill-conditioned (badly scaled) systems, never on a well-separated case (there the trace "
+                               "equals the model's, where it does not occur); their outputs are judged by the oracle like all others",
         "corpus_cases": stats.get("corpus_cases", 0),
         "harness_restarts": len(stats["restarts"]), "cases_given_up_after_3_hangs": len(stats["hangs"]),
     }
